@@ -9,7 +9,8 @@ RULE = ("TLC enumerates tagged JSON values: every leaf (all strings of <= 2 char
         "keys in every order and duplicate pattern, nesting to depth 3 with duplicates, arrays. Canon(v) is the expected byte string "
         "(or rejection). The harness spells each value 4 ways (raw, upper-case \\\\uXXXX with surrogate pairs, every character "
         "escaped, mandatory escapes as \\\\u00XX; with and without whitespace) and runs every entry point. Non-trivial = not a "
-        "plain scalar leaf, or a leaf that must be rejected. Random deeper values are validated by Trace_C01.")
+        "plain scalar leaf, or a leaf that must be rejected. Objects of <= 3 members over the keys a, s, signatures, t, unsigned, v (the removed names also "
+        "nested) give the signing form SigningBytes(v) that ruma_signatures::canonical_json must produce. Random deeper values are validated by Trace_C01.")
 
 
 def run(rep, tier):
@@ -53,6 +54,17 @@ def run(rep, tier):
                 got = bytes(int(x) for x in oc[3:].split(",")).decode("utf-8", "replace")
             rep.violation(cls + "/" + entry[0], {"value": c["v"], "text_raw_spelling": o["text0"], "expected": bytes(c["bytes"]).decode("utf-8", "replace") if c["ok"] else "reject",
                                                  "observed": got, "entry_points": who})
+        # the signing form (ruma_signatures::canonical_json): top-level "signatures"/"unsigned" removed, nothing else
+        for oc, who in o.get("signing", {}).items():
+            sexp = "ok:" + ",".join(map(str, c["sbytes"])) if c["ok"] else "err"
+            if oc == sexp or (c["ok"] and not c["strict"] and oc == "err"):
+                continue
+            got = bytes(int(x) for x in oc[3:].split(",")).decode("utf-8", "replace") if oc.startswith("ok:") and len(oc) > 3 else oc
+            rep.violation("canon/signing-form/" + ("panic" if oc.startswith("panic") else "wrong-bytes" if oc.startswith("ok:") else "rejected"),
+                          {"value": c["v"], "text_raw_spelling": o["text0"], "expected": bytes(c["sbytes"]).decode("utf-8", "replace") if c["ok"] else "reject",
+                           "observed": got, "entry_points": who})
+        if c["v"].get("o") is not None and not o.get("signing"):
+            raise vlib.ToolError("case %d: the signing form of an object was not computed" % o.get("i", -1))
     rep.sample({"value": cases[200]["v"], "text_spelling_1": obs[200]["text1"], "expected_bytes": cases[200]["bytes"]})
     n = 300000 if thorough else 5000
     tpath = vlib.record_trace("C01", ["record", "c01", "--n", str(n)])
